@@ -255,9 +255,30 @@ theorem fps_zero_cases_long {W U : Nat} {c : BorrowCommon} {sp : BorrowSide} {v 
     · simp [h0]
     · simp [h0, h1, h2]
 
-/-- a position's pending borrowing fee is a natural number (never negative); it is an error
-exactly when the position's factor exceeds the cumulative one or the value does not fit — and
-for reachable states the first cannot happen (`totalBorrowing_exact`). -/
+/-- **the smaller side is never charged** (either side, `skip_borrowing_fee_for_smaller_side`): the
+factor per second of the smaller side is `0`, or — long side only — the computation fails with the
+overflow error because the reserved value `tokens · max index price` is computed BEFORE the
+smaller-side test, exactly as `borrowing_factor_per_second` does (`reserved_value(..)?` first);
+it is never a positive factor. The extra premise of `fps_zero_cases_long` is this code order, not a
+gap: when it fails the instruction reverts (checked against
+`crates/model/src/market/borrowing.rs`; the failing branch needs `tokens · price ≥ 2^W`). -/
+theorem fps_smaller_side_never_charged {W U : Nat} {c : BorrowCommon} {sp : BorrowSide} {v : BorrowView} (isLong : Bool)
+    (hskip : c.skipSmaller = true)
+    (hsmall : (isLong = true ∧ v.oiLong < v.oiShort) ∨ (isLong = false ∧ v.oiShort < v.oiLong)) :
+    borrowingFactorPerSecond W U c sp isLong v = .ok 0 ∨
+    (isLong = true ∧ 2 ^ W ≤ v.oiTokens * v.idxMax ∧ borrowingFactorPerSecond W U c sp isLong v = .error .ovf) := by
+  rcases hsmall with ⟨rfl, h⟩ | ⟨rfl, h⟩
+  · by_cases hfit : v.oiTokens * v.idxMax < 2 ^ W
+    · exact Or.inl ((fps_zero_cases_long (W := W) (U := U) (c := c) (sp := sp) (v := v)).2 hskip h hfit)
+    · right
+      refine ⟨rfl, by omega, ?_⟩
+      unfold borrowingFactorPerSecond checkedMul toU
+      simp [hfit]
+  · exact Or.inl ((fps_zero_cases (W := W) (U := U) (c := c) (sp := sp) (v := v)).2 hskip h)
+
+/-- a position's pending borrowing fee is a natural number (never negative): it is the exact
+value when the factors are ordered and the value fits, and an error when the position's factor exceeds the cumulative one (the does-not-fit
+direction is not stated) — for reachable states the latter cannot happen (`totalBorrowing_exact`). -/
 theorem position_fee_spec (W U size posBf latest : Nat) :
     (posBf ≤ latest → U ≠ 0 → size * (latest - posBf) / U < 2 ^ W →
       pendingBorrowingFeeValue W U size posBf latest = .ok (size * (latest - posBf) / U)) ∧
